@@ -84,6 +84,51 @@ def jsonable(x):
     return repr(x)
 
 
+def deep_key(x, _memo=None, _depth=0):
+    """Hashable canonical rendering of *everything* reachable from x.
+
+    Meant for `canon`: instead of hand-picking the fields future behaviour can depend on, take the
+    whole instance dictionary (and the data attributes of its class), so that hidden state that a
+    change to the library introduces (a remembered cursor, a cached total) still distinguishes
+    states and is therefore explored.  Floats are keyed bit-exactly; object identity is replaced
+    by structure, with back-references for shared/cyclic objects (so aliasing is part of the key).
+    """
+    if _memo is None:
+        _memo = {}
+    if x is None or isinstance(x, (bool, int, str, bytes)):
+        return x
+    if isinstance(x, float):
+        return ("f", x.hex())
+    if _depth > 40:
+        return ("deep",)
+    if isinstance(x, (list, tuple, set, frozenset, dict)) or hasattr(x, "__dict__"):
+        if id(x) in _memo:
+            return ("ref", _memo[id(x)])
+        _memo[id(x)] = len(_memo)
+    if isinstance(x, (list, tuple)):
+        return (type(x).__name__,) + tuple(deep_key(i, _memo, _depth + 1) for i in x)
+    if isinstance(x, (set, frozenset)):
+        return ("set",) + tuple(sorted((deep_key(i, _memo, _depth + 1) for i in x), key=repr))
+    if isinstance(x, dict):
+        return ("dict",) + tuple(sorted(((deep_key(k, _memo, _depth + 1), deep_key(v, _memo, _depth + 1)) for k, v in x.items()), key=repr))
+    if isinstance(x, type) or callable(x):
+        return ("callable", getattr(x, "__qualname__", repr(type(x))))
+    if hasattr(x, "__dict__"):
+        cls = type(x)
+        inst = vars(x)
+        items = [(k, deep_key(v, _memo, _depth + 1)) for k, v in sorted(inst.items())]
+        if (cls.__module__ or "").startswith("mingus"):
+            for klass in cls.__mro__:
+                if klass is object:
+                    continue
+                for k, v in sorted(vars(klass).items()):
+                    if k.startswith("__") or k in inst or callable(v) or isinstance(v, (staticmethod, classmethod, property)):
+                        continue
+                    items.append(("class:" + k, deep_key(v, _memo, _depth + 1)))
+        return (cls.__module__ + "." + cls.__qualname__,) + tuple(items)
+    return ("repr", repr(x))
+
+
 class Stats(object):
     """Mergeable per-worker statistics."""
 
